@@ -1,5 +1,7 @@
 import TantivyModel.Proofs.BoolCompile
 import TantivyModel.Proofs.QueryLists
+import TantivyModel.Proofs.PhraseSlop
+import TantivyModel.Proofs.OrderEnc
 /-!
 # C03 — Queries match exactly the documents their logical meaning prescribes
 
@@ -280,6 +282,67 @@ theorem C03_phrase_slop3_inconsistent :
       ∧ phraseSlop [[2], [4], [5]] 2 = false := by
   decide
 
+/-- two-term phrases with slop: both real algorithms (scoring on: `intersection_count_with_slop`,
+scoring off: `intersection_exists_with_slop`), in either processing order, decide exactly the
+documented meaning "some occurrence pair is within `slop`" (full statement for n terms: false,
+see `C03_phrase_slop3_inconsistent`). -/
+theorem C03_phrase_slop_partial (a b : List Nat) (slop : Nat)
+    (ha : a.Pairwise (· ≤ ·)) (hb : b.Pairwise (· ≤ ·)) :
+    PhraseSlop.phraseOff [a, b] slop = phraseSlop [a, b] slop
+      ∧ PhraseSlop.phraseOn [a, b] slop = phraseSlop [a, b] slop
+      ∧ PhraseSlop.phraseOff [b, a] slop = phraseSlop [a, b] slop
+      ∧ PhraseSlop.phraseOn [b, a] slop = phraseSlop [a, b] slop
+      ∧ (phraseSlop [a, b] slop = true ↔ ∃ p, p ∈ a ∧ ∃ q, q ∈ b ∧ dist p q ≤ slop) :=
+  have h := PhraseSlop.phrase_two_terms a b slop ha hb
+  ⟨h.1, h.2.1, h.2.2.1, h.2.2.2, PhraseSlop.phraseSlop_two a b slop⟩
+
+/-! ## order-preserving encodings (functions regenerated from common/src/lib.rs) -/
+
+/-- `i64_to_u64` is strictly monotone from the signed order to the unsigned order -/
+theorem C03_i64_to_u64_strictMono (x y : BitVec 64) :
+    x.toInt < y.toInt ↔ (OrderEnc.i64_to_u64 x).toNat < (OrderEnc.i64_to_u64 y).toNat := by
+  have hx := OrderEnc.i64_to_u64_toNat x
+  have hy := OrderEnc.i64_to_u64_toNat y
+  omega
+
+/-- `f64_to_u64` is strictly monotone from the sign-magnitude order of IEEE-754 bit patterns
+(the order of non-NaN floats, with -0 < +0) to the unsigned order -/
+theorem C03_f64_to_u64_strictMono (x y : BitVec 64) :
+    OrderEnc.f64Key x < OrderEnc.f64Key y
+      ↔ (OrderEnc.f64_to_u64 x).toNat < (OrderEnc.f64_to_u64 y).toNat := by
+  have hx := OrderEnc.f64_to_u64_toNat x
+  have hy := OrderEnc.f64_to_u64_toNat y
+  omega
+
+/-- big-endian term bytes of equal width: lexicographic order ⇔ numeric order -/
+theorem C03_be_bytes_lex_iff_lt (w v1 v2 : Nat) (h1 : v1 < 256 ^ w) (h2 : v2 < 256 ^ w) :
+    blt (OrderEnc.be w v1) (OrderEnc.be w v2) = decide (v1 < v2) :=
+  OrderEnc.blt_be w v1 v2 h1 h2
+
+def bndBe (w : Nat) : BndN → Bnd
+  | .incl v => .incl (OrderEnc.be w v)
+  | .excl v => .excl (OrderEnc.be w v)
+  | .unb => .unb
+
+def bndBelow (w : Nat) : BndN → Prop
+  | .incl v => v < 256 ^ w
+  | .excl v => v < 256 ^ w
+  | .unb => True
+
+/-- the two range evaluators agree: a range over the term dictionary (big-endian bytes of the
+encoded value, lexicographic) selects the same values as the range over the fast-field column
+(encoded values, numeric), for inclusive, exclusive and unbounded ends -/
+theorem C03_range_paths_agree (w : Nat) (lo hi : BndN) (v : Nat) (hv : v < 256 ^ w)
+    (hlo : bndBelow w lo) (hhi : bndBelow w hi) :
+    inRange (bndBe w lo) (bndBe w hi) (OrderEnc.be w v) = inRangeN lo hi v := by
+  have L : ∀ b, b < 256 ^ w → blt (OrderEnc.be w v) (OrderEnc.be w b) = decide (v < b) :=
+    fun b hb => OrderEnc.blt_be w v b hv hb
+  have R : ∀ b, b < 256 ^ w → blt (OrderEnc.be w b) (OrderEnc.be w v) = decide (b < v) :=
+    fun b hb => OrderEnc.blt_be w b v hb hv
+  unfold inRange inRangeN
+  cases lo <;> cases hi <;> simp only [bndBe, bndBelow] at hlo hhi ⊢ <;>
+    simp [L, R, hlo, hhi] <;> rw [Bool.eq_iff_iff] <;> simp <;> omega
+
 /-! ## non-vacuity -/
 
 /-- the classifier that never specialises is sound on every leaf -/
@@ -313,6 +376,11 @@ example :
     let s : Seg := ⟨[d1, d1], [true, false]⟩
     termCountShortcut s 1 [97] = 2 ∧ collectCount leafTree false s (.leaf (.term 1 [97])) = 1 := by
   decide
+example : ([2, 5, 9] : List Nat).Pairwise (· ≤ ·) ∧ phraseSlop [[2, 5, 9], [7]] 2 = true := by decide
+example : (-1 : Int) = (BitVec.ofNat 64 (2^64 - 1)).toInt ∧ (BitVec.ofNat 64 5).toInt = 5 := by decide
+example : OrderEnc.f64Key (BitVec.ofNat 64 (2^63)) < OrderEnc.f64Key (BitVec.ofNat 64 0) := by decide
+example : (300 : Nat) < 256 ^ 2 ∧ OrderEnc.be 2 300 = [1, 44] := by decide
+example : bndBelow 2 (BndN.incl 300) := by show 300 < 256 ^ 2; decide
 example : (([⟨1, [], []⟩, ⟨2, [], []⟩] : List ADoc)).Perm [⟨2, [], []⟩, ⟨1, [], []⟩] :=
   List.Perm.swap _ _ _
 
